@@ -4,7 +4,9 @@ Directed generation: vlib/c14_ref.py is a branch-tracing transliteration of the 
 is used here only to *select inputs* that take the rare branches (add-back, forced digit
 n21 == d, second corrections of div_2x1/div_3x2/reciprocal_2).  Expected results never come
 from it: they come from the Coq model and the Coq spec."""
+import os
 import random
+import re
 
 from . import common as C
 from . import c14_ref as R
@@ -374,7 +376,39 @@ def directed():
     return out
 
 
+def _table(path, pat):
+    try:
+        m = re.search(pat, open(path).read(), re.S)
+        return [int(x) for x in re.findall(r"\d+", m.group(1))] if m else None
+    except OSError:
+        return None
+
+
+def table_directed(samples=50000):
+    """Ties the 256-entry reciprocal table of the model to the one in the source on every run:
+    rows whose entry differs are searched (impl vs the exact formula) for failing divisors, which
+    are returned as ordinary case lines so that the verdict comes from the Coq evaluation."""
+    src = _table(os.path.join(C.REPO, "src/algorithms/div/reciprocal.rs"),
+                 r"static TABLE: \[u16; 256\] = \[(.*?)\];")
+    mdl = _table(os.path.join(C.COQ, "Model", "DivRecip.v"), r"Definition RECIP_TABLE : list Z := \[(.*?)\]\.")
+    if not src or not mdl or len(src) != 256 or len(mdl) != 256:
+        return []
+    rows = [i for i in range(256) if src[i] != mdl[i]]
+    out = []
+    exe = os.path.join(C.TARGET, "release", BIN)
+    for i in rows[:8]:
+        lo, hi = (256 + i) << 55, (257 + i) << 55
+        rng = random.Random(1000 + i)
+        ds = [lo, hi - 1] + [rng.randrange(lo, hi) for _ in range(samples)]
+        lines = ["reciprocal 64 %s" % Z(d) for d in ds]
+        res = C.run_harness(BIN, "release", lines) if os.path.exists(exe) else []
+        bad = [ln for ln, d, r in zip(lines, ds, res) if r != "Z:%x" % recip(d)]
+        out += bad[:20] + lines[:200]
+    return out
+
+
 def corpus():
+    extra = table_directed()
     out = []
     # reciprocal: every table row at both ends (+ the neighbours) and the extreme divisors
     for row in range(256):
@@ -408,7 +442,7 @@ def corpus():
                         out.append(c_div(64 * ln, tl(N, ln), dv))
     out += D1_REGRESSIONS
     out += directed()
-    return out
+    return out + extra
 
 
 def gen(rng, tier):
